@@ -91,6 +91,26 @@ def phase(ctx, exe, hx, name, args, prop, timeout=3000):
     return dict(n=len(cases) // 2, dis=dis, failures=failures, stats=stats)
 
 
+def replay_file(ctx):
+    """--replay F: run only the event list(s) recorded in a replay file written by bin/check"""
+    path = getattr(ctx, "replay", None)
+    if not path:
+        return None
+    import json
+    v = json.load(open(path)).get("violation", {})
+    texts = [v.get("what", "")] + [b.get("case", "") for b in v.get("broken", []) if isinstance(b, dict)]
+    lines = []
+    for t in texts:
+        m = re.search(r"events=(\d+ .*)$", t) or re.search(r"raft (?:run|flags) (\d+ .*)$", t)
+        if m:
+            lines.append(m.group(1).strip())
+    if not lines:
+        return None
+    out = os.path.join(ctx.workdir, "replay_events.txt")
+    open(out, "w").write("\n".join(lines) + "\n")
+    return out
+
+
 def run_property(ctx, prop, rule, quick, thorough):
     """quick/thorough: lists of (phase name, harness args) besides the corpus"""
     exe, hx = build()
@@ -98,7 +118,11 @@ def run_property(ctx, prop, rule, quick, thorough):
     cf, names = corpus_file(ctx, prop)
     if names:
         phases.append(("corpus", ["replay", "--file", cf]))
-    phases += quick if ctx.tier == "quick" else thorough
+    rp = replay_file(ctx)
+    if rp:
+        phases = [("replay", ["replay", "--file", rp])]
+    else:
+        phases += quick if ctx.tier == "quick" else thorough
     dis, failures, stats, n = [], [], [], 0
     for name, args in phases:
         r = phase(ctx, exe, hx, name, args, prop)
